@@ -8,7 +8,7 @@ from typing import List, Optional, Set
 from ..cfg import ENTRY, EXIT, RAISE, calls_in
 from ..common import calls_named, dotted, kw, loc, norm, stmt_of
 from ..model import AnalysisError, own_nodes
-from .util import (validating_numpy_call, op_instance_call, anchor_func, assigned_name, build_cfg, callee_desc, facts, name_aliases, node_of_call,
+from .util import (validating_numpy_call, op_instance_call, owner_closure, anchor_func, assigned_name, build_cfg, callee_desc, facts, name_aliases, node_of_call,
                    raising_calls, switch_assumptions)
 from ..common import stmt_of  # noqa
 
@@ -390,7 +390,7 @@ def r08_7(run):
         if isinstance(node, ast.Call) and isinstance(node.func, ast.Attribute) and node.func.attr in ("pop", "clear") \
                 and dotted(node.func.value) == "_array_tracker":
             fi = fx.owner_function(mod, node)
-            ok = fi is not None and fi.qualname == relf.qualname
+            ok = fi is not None and fi.qualname in owner_closure(run, {relf.qualname})
             run.ob("R08.7", loc(mod, node), fi.short if fi else mod.name, f"_array_tracker.{node.func.attr}(...)", ok,
                    "tracker entries removed only by the release function" if ok else "tracker entry dropped outside the release function")
 
@@ -556,47 +556,47 @@ def r08_5(run):
                     if isinstance(v, ast.BinOp) and isinstance(v.op, ast.Sub):
                         inc = False
                 want = lockf if inc else relf
-                ok = fi is not None and fi.qualname == want.qualname
+                ok = fi is not None and fi.qualname in owner_closure(run, {want.qualname})
                 run.ob("R08.5", loc(mod, node), fi.short if fi else mod.name,
                        f"counter {'increment' if inc else 'decrement/delete'}: {norm(node)[:60]}", ok,
                        f"counter {'incremented only in the lock function' if inc else 'decremented/deleted only in the release function'}"
                        if ok else "lock counter modified outside its owner function")
-    # (b) writeable=True only on the count==1 edge
-    cfg = build_cfg(run, relf)
-    counter_names = set()
-    for n in own_nodes(relf.node):
-        if isinstance(n, ast.Assign) and isinstance(n.value, ast.Subscript) and dotted(n.value.value) == "_array_counter":
-            nm = assigned_name(n)
-            if nm:
-                counter_names.add(nm)
-    tests = [n for n, s in cfg.stmt.items() if cfg.label[n] == "If" and isinstance(s, ast.Compare)
-             and isinstance(s.left, ast.Name) and s.left.id in counter_names and len(s.ops) == 1
-             and isinstance(s.ops[0], ast.Eq) and isinstance(s.comparators[0], ast.Constant) and s.comparators[0].value == 1]
-    if not tests:
-        run.ob("R08.5", loc(relf, relf.node), relf.short, "a `count == 1` (last holder) test guards the unlock", False,
-               "no test of the form `<count> == 1` on the value read from _array_counter: the array can be made writeable while other "
-               "live ops still hold a lock on it")
-    for n in own_nodes(relf.node):
-        if isinstance(n, ast.Assign) and any(isinstance(t, ast.Attribute) and t.attr == "writeable" for t in n.targets) \
-                and isinstance(n.value, ast.Constant) and n.value.value is True:
+    # (b) writeable=True only for the last holder: decided by evaluating the release function (helpers inlined) for a counter value of
+    #     0, 1 and 2 -- the unlock must be reachable for 1 only -- rather than by the spelling of the test
+    rel_closure = owner_closure(run, {relf.qualname})
+    for q in sorted(rel_closure):
+        f_ = run.project.functions.get(q)
+        if f_ is None:
+            continue
+        cfg = build_cfg(run, f_)
+        counter_names = {assigned_name(n) for n in own_nodes(f_.node) if isinstance(n, ast.Assign) and isinstance(n.value, ast.Subscript)
+                         and dotted(n.value.value) == "_array_counter" and assigned_name(n)}
+        for n in own_nodes(f_.node):
+            if not (isinstance(n, ast.Assign) and any(isinstance(t, ast.Attribute) and t.attr == "writeable" for t in n.targets)
+                    and isinstance(n.value, ast.Constant) and n.value.value is True):
+                continue
             nn = cfg.node_for(n)
-            root = n.targets[0]
-            while isinstance(root, ast.Attribute):
-                root = root.value
-            is_param_arr = isinstance(root, ast.Name) and root.id in {a.arg for a in relf.node.args.args}
-            if is_param_arr:
-                ok = any(cfg.edge_dominates(t, "true", nn) for t in tests)
-                run.ob("R08.5", loc(relf, n), relf.short, f"unlock {norm(n.targets[0])}", ok,
-                       "executed only on the true edge of `count == 1` (last holder)" if ok else
-                       "the array can be made writeable while other live ops still hold a lock on it")
-            else:
-                # waiting view: must be guarded by its counter being 0 (the `> 0: continue` test)
-                guards = [g for g, s in cfg.stmt.items() if cfg.label[g] == "If" and isinstance(s, ast.Compare)
-                          and isinstance(s.left, ast.Subscript) and dotted(s.left.value) == "_array_counter"]
-                ok = any(cfg.edge_dominates(g, "false", nn) for g in guards)
-                run.ob("R08.5", loc(relf, n), relf.short, f"unlock waiting view {norm(n.targets[0])}", ok,
-                       "executed only on the false edge of `_array_counter[view] > 0`" if ok else
+            guards = [g for g, s_ in cfg.stmt.items() if cfg.label[g] == "If" and isinstance(s_, ast.Compare)
+                      and isinstance(s_.left, ast.Subscript) and dotted(s_.left.value) == "_array_counter"]
+            if any(cfg.edge_dominates(g, "false", nn) for g in guards):
+                run.ob("R08.5", loc(f_, n), f_.short, f"unlock waiting view {norm(n.targets[0])}", True,
+                       "executed only on the false edge of `_array_counter[view] > 0`")
+                continue
+            if f_.qualname != relf.qualname and not counter_names:
+                run.ob("R08.5", loc(f_, n), f_.short, f"unlock waiting view {norm(n.targets[0])}", False,
                        "a view waiting for its base can be unlocked while a live op still holds it")
+                continue
+            verdict = {}
+            for cn in sorted(counter_names):
+                for val in (0, 1, 2):
+                    c_ = build_cfg(run, f_, {cn: val})
+                    m_ = c_.node_for(n)
+                    verdict[val] = verdict.get(val, False) or (m_ is not None and c_.reachable(m_))
+            ok = bool(counter_names) and verdict.get(1) is True and verdict.get(0) is False and verdict.get(2) is False
+            run.ob("R08.5", loc(f_, n), f_.short, f"unlock {norm(n.targets[0])}", ok,
+                   "reachable exactly when the counter read from _array_counter is 1 (last holder): evaluated for 0, 1, 2" if ok else
+                   f"reachability of the unlock for a lock count of 0/1/2: {verdict}" + ("" if counter_names else " (no local holds the count)") +
+                   " -- the array can be made writeable while other live ops still hold a lock on it")
     # (c) natively read-only arrays are not tracked unless forced
     cfg = build_cfg(run, lockf)
     stores = {cfg.node_for(n) for n in own_nodes(lockf.node)
@@ -666,7 +666,9 @@ def r08_6(run):
         res = r.value.id
         if res == "out":
             continue
-        base_locks = [c for c in calls_named(fi.node, "lock_arr_writeability") if c.args and norm(c.args[0]) == f"{res}.data.base"]
+        from .util import projection_aliases, sem
+        _al = projection_aliases(fi.node)
+        base_locks = [c for c in calls_named(fi.node, "lock_arr_writeability") if c.args and sem(c.args[0], _al) == f"{res}.data.base"]
         if not base_locks:
             run.ob("R08.6", loc(fi, r), fi.short, f"base of an out= view target is locked", False,
                    "no lock_arr_writeability(<result>.data.base): writing into a view leaves its owner writeable inside a live graph")
